@@ -169,7 +169,7 @@ def register_files(R):
                ensures=["not allocated(ret)",
                         "implies(content_type is not None, ret.content_type is content_type)",
                         # lazily: the callback is stored, not called
-                        "implies(not truthy(buffer_now), ret._get_bytes is reader and hist(reader) == old(hist(reader)))",
+                        "implies(not truthy(buffer_now), fieldof(ret, '_get_bytes') is reader and hist(reader) == old(hist(reader)))",
                         # buffer_now: called exactly once, now; the content is backed by a private buffer
                         "implies(truthy(buffer_now), hist(reader) == snoc(old(hist(reader)), call('__call__', [], {})))",
                         "implies(truthy(buffer_now), not allocated(fieldof(ret._get_bytes, 'buf')))"])
